@@ -15,12 +15,12 @@ import (
 
 // Table is one ORM table or singleton.
 type Table struct {
-	Name      string           // e.g. BatchBalance
-	APIPkg    string           // short api package path
-	Iface     *types.Named     // <Name>Table interface
-	Row       *types.Named     // row struct
+	Name      string       // e.g. BatchBalance
+	APIPkg    string       // short api package path
+	Iface     *types.Named // <Name>Table interface
+	Row       *types.Named // row struct
 	Methods   map[string]*types.Func
-	PK        []string         // primary key parameter names of Get (snake→as generated)
+	PK        []string            // primary key parameter names of Get (snake→as generated)
 	Unique    map[string][]string // GetByX → param names
 	AutoInc   bool
 	Singleton bool
@@ -71,7 +71,7 @@ func (e *EntryPoint) Key() string { return e.Service + "." + e.Name }
 
 type Model struct {
 	P       *Program
-	Tables  map[string]*Table         // by Name
+	Tables  map[string]*Table          // by Name
 	byIface map[*types.TypeName]*Table // interface type name → table
 	byRow   map[*types.TypeName]*Table
 	Entries []*EntryPoint
